@@ -173,9 +173,15 @@ func (j *judgeCtx) buildLife() {
 		}
 		i := li
 		li++
+		// (a worker constructed with a queue is started there and then: a later Bind changes
+		// nothing about its state, whatever it overlaps)
+		inertBind := len(j.wd.cfg.Queues) > 0
+		if inertBind && c.K == opBind {
+			continue
+		}
 		overl := false
 		for k, o := range j.lcalls {
-			if k != i && o.Inv < c.Inv && (o.Ret == 0 || o.Ret > c.Inv) {
+			if k != i && o.Inv < c.Inv && (o.Ret == 0 || o.Ret > c.Inv) && !(inertBind && o.K == opBind) {
 				overl = true
 			}
 		}
@@ -720,6 +726,41 @@ func (j *judgeCtx) batchItemRejectable(s *Sub) bool {
 
 // ---------------------------------------------------------------- C06 : barriers
 
+// executingThroughout: whatever the state of the worker and whoever resumes, pauses or restarts
+// it meanwhile, every barrier call returns only at a moment when no worker function is
+// executing.  A function that was entered before the call was invoked and had not returned
+// when the call returned leaves no such moment.
+func (j *judgeCtx) executingThroughout(c *Call, clause string) {
+	// (except on a worker left Stopped with a job running: a Resume that overlapped an
+	// earlier Stop switched dispatching back on underneath it - the resumer exclusion of
+	// C06.b - and a Stop of a stopped worker has nothing to wait for; likewise after the
+	// cancellation of the worker's context)
+	if j.wd.cancelled != 0 {
+		return
+	}
+	for _, o := range j.lcalls {
+		if o == c || !(o.K == opStop || o.K == opWaitAndStop) || o.Inv >= c.Inv {
+			continue
+		}
+		for _, r := range j.lcalls {
+			if (r.K == opResume || r.K == opRestart) && (r.Inv < o.Ret || o.Ret == 0) && (o.Inv < r.Ret || r.Ret == 0) {
+				return
+			}
+		}
+	}
+	for _, s := range j.wd.subs {
+		for i, e := range s.Entries {
+			if e >= c.Inv {
+				continue
+			}
+			if i >= len(s.Exits) || s.Exits[i] > c.Ret {
+				j.add(clause, c.Ret, "%s [%d,%d] returned although the worker function of job %d was executing during the whole call (entered at %d, before the call; not returned at %d): at no moment of the call was the worker without a job in flight", opNames[c.K], c.Inv, c.Ret, s.N, e, c.Ret)
+				return
+			}
+		}
+	}
+}
+
 func (j *judgeCtx) checkBarriers() {
 	wd := j.wd
 	for _, c := range j.r.calls {
@@ -749,6 +790,7 @@ func (j *judgeCtx) checkBarriers() {
 				j.add("C06.a", c.Ret, "WaitUntilFinished returned at %d, but job %d, whose worker function had returned by then, was not settled: its handle did not read Closed right afterwards", c.Ret, c.Extra[0])
 			}
 			j.ackBeforeBarrier(c)
+			j.executingThroughout(c, "C06.a")
 			if j.stateDuring(c.Inv, c.Ret) != lsR {
 				continue
 			}
@@ -780,6 +822,7 @@ func (j *judgeCtx) checkBarriers() {
 			// a Resume/Restart/Bind from another goroutine that overlaps the barrier call
 			// switches dispatching back on underneath it: the property quantifies over
 			// concurrent barrier callers, not over concurrent resumers
+			j.executingThroughout(c, "C06.b")
 			if j.racedByResumer(c) {
 				continue
 			}
